@@ -4,17 +4,21 @@ from . import common as C
 from . import c08
 
 MANIFEST = dict(
-   technique="Lean 4 proof over the store model (conversion = OnAttach annotations on a private scratch copy of the Bag, then applyBag over an arbitrary visiting order; the converter's reads of definition-held member lists through accessors = allocation-only accesses to value-graph cells) + translator (go/ast provenance analysis of jsonschema/to.go: accessor calls, write sites with the origin of the written memory, map ranges with their sinks; accessors classified alias/copy behaviourally) with theorems over the whole regenerated tables + history correspondence: real derivations, ToJSONSchema calls with every option setting and Parse calls, each document compared with the one an isolated twin family gives",
-   text="For the code after pending/C12-convert-scratch-bag.diff and pending/C08-clone-bag.diff: c12_pure (conversion leaves the store untouched), c12_deterministic / c12_twice (the annotated bag is a function of the schema's observation), c12_order_invariant / c12_doc_deterministic (the keywords are the same for every permutation of the annotated bag, i.e. for every Go map iteration order), c12_hist (along every interleaving of chaining calls, conversions and parses every live schema keeps its observation and converts to the same result). Registry: the Describe/Meta checks' OnAttach (run by the converter against the live schema) is modelled in full (convertReg): c12_reg_frame (no other schema's entry is written), c12_annotate_idem / c12_reg_twice / c12_reg_after_others (after the first conversion the registry is a fixed point, so every later conversion reads the same entry), c12_reg_partial (with the entry absorbed the conversion leaves the registry alone); the full statement c12_reg_full is refuted by conv_registers_meta_check (open known finding conversion-registers-meta-check). Definition-held data (literal member lists behind the Def pointer a family shares, handed out by ZodLiteral.Values() by reference): convLiteral_ext / c12_def_pure (accessor, boxing and flattening only allocate: every allocated value graph is observed as before), members_eq_spec / c12_def_after_others / c12_def_twice / c12_def_acc_irrelevant (the document's members are a function of the definition, the same after any conversions of relatives, whether the accessor aliases or copies); excluded shape with witnesses inplace_dedup_changes_definition / inplace_dedup_changes_next_document. Over the tables regenerated from jsonschema/to.go: c12_writes_private (every write site writes memory the conversion made itself), c12_aliasing_accessors_read_only, c12_accessors_classified, c12_scratch_bag_private, c12_ranges_partial (every loop over a map feeds an order-insensitive sink except ToJSONSchema(registry), which is outside the property's quantifier: registry_range_order_sensitive, c12_ranges_full_false), c12_shape_range_sorted / c12_enum_sort_total / c12_applyBag_range_sorted / applyBag_field_collisions / sortedKeys_order_invariant (the loops repaired by 3e22e56 and d72e9e7; legacy_shape_range_sensitive / legacy_enum_sort_partial / legacy_applyBag_range_sensitive for the trees before). Options (Model/ConvOpts.lean: every field of jsonschema.Options a parameter of the conversion step; Override = user code handed the live node, may assign its value keywords and rewrite in place what it holds): c12_opts_ext / c12_opts_pure / c12_opts_entries_kept (under ANY option set the conversion writes nothing that existed before; every schema and every registry entry observed as before), c12_opts_deterministic / c12_opts_twice / c12_opts_after_others (the shown document is the same in every extension of the store), c12_opts_hist (histories with conversions under any options), c12_opts_full_with_clone; for the code before /repo 8997831 c12_opts_partial + witnesses override_edits_registry_examples / c12_opts_full_false. Over the regenerated option tables: c12_options_modelled, c12_options_read_only, c12_override_handed_live_node, c12_doc_stores_private (legacy_examples_store_shared), c12_no_mutator_calls. Witnesses for the pinned code: today_convert_pollutes_parent (converting String().Min(5) makes String() emit minLength 5) and today_applyBag_order_dependent (File().Size(3).Min(1) converts to minLength 3 or 1 depending on map order).",
-   note="The document model covers the part of conversion that goes through the Bag (constraint keywords, patterns) plus registry metadata, Values and Shape identity; structural recursion into member schemas and $defs/ref hoisting (how the value options shape the structural part) are not modelled and are covered only by the correspondence runs (16 option settings incl. URI/Override callbacks, ToJSONSchema(registry) steps, in-place rewriting of documents); ToJSONSchema(registry): purity is claimed and checked, the document is order-dependent (open known finding registry-document-order-dependent); which schemas a conversion visits (whose Describe/Meta callbacks run) is measured on a scout replica whose checks' exported OnAttach slices are wrapped with recorders. The oracle document is obtained from a replayed isolated twin, which assumes constructors and chaining calls are deterministic. Trusted: Lean kernel, axioms propext/Classical.choice/Quot.sound, the Go harness and comparer.",
+   technique="Lean 4 proof over definitions whose inputs are tables REGENERATED from jsonschema/to.go on every run (go/ast provenance analysis: write sites with the origin of the written memory, map ranges with their sinks, accessor calls, option fields, document stores; accessors classified alias/copy behaviourally): the store effect of a conversion = any sequence of executions of the regenerated write sites (ConvDoc.runTrace), the keywords of the document node = ConvDoc.docOf over the regenerated applyBag row (a transcription of applyBag / applyStringBag / convertFile / applyNumericRangeDefaults / toFloat / the leaf cases of doConvert, with a source fingerprint); both are what the driver executes. History correspondence: real derivations, ToJSONSchema calls with every option setting and Parse calls; each document compared with the one an isolated twin family gives, every live schema re-observed, and per conversion the keywords docOf derives from the schema's annotated Bag compared with the keywords of the real document",
+   text="For /repo HEAD (conversion on a scratch copy since 6cd8299, sorted Bag keys since d72e9e7, Clone always copies the Bag). NO EFFECT: c12_trace_ext / c12_trace_pure (every sequence of executions, with any payloads, of write sites of the WHOLE regenerated table leaves every location that existed before as it was; the content is sites_private / c12_writes_private, a decide over the table; legacy_trace_impure: with the write site of the tree before 6cd8299 the same fold changes the schema), c12_trace_obs (every schema allocated before is observed as before), c12d_hist (along every interleaving of chaining calls, conversions executing any such traces, and parses, every live schema keeps its observation). PARSES AS BEFORE: stated for the kinds that have a content model, by the bridge 'the verdict is a function of the observed cells' imported from C08: c12_parse_obj_as_before (objects/structs: objParse on obsO), c12_parse_holder_as_before (unions, xors, intersections, enums, slices, sets, tuples, arrays, records, maps, transforms, pipes: hAccept over the world of observations, any nesting depth); for every other kind (the primitives' check lists) 'parses as before' is decided by the run only (probe sets re-parsed after every step). SAME DOCUMENT: docOf_perm (get_perm, canon_perm: the keywords docOf derives are the same for every enumeration order of the annotated Bag, because the regenerated row says sortedKeys: applyBagRow_sorted, applyBag_row_present; legacy_docOf_order_dependent for the row of the tree before d72e9e7), c12d_doc_as_before / c12d_doc_as_before_any_order (after any history the node of every live schema carries the keywords it carried before, the check callbacks being ANY function of the observation); named_functions_present (every function of to.go the statements name has rows in the regenerated tables: no vacuous quantification). docOf covers the bag-settable keywords of the converted schema's own node: every keyword for the leaf kinds (strings, integers, floats, bool, nil, any, unknown, number, date/time formats, file), the fields applyBag assigns for the structural kinds, nothing for wrappers and pipes. Registry: the Describe/Meta checks' OnAttach (run by the converter against the live schema) modelled in full (convertReg, executed by the driver): c12_reg_frame, c12_annotate_idem / c12_reg_twice / c12_reg_after_others, c12_reg_partial; the full statement c12_reg_full is refuted by conv_registers_meta_check (open known finding conversion-registers-meta-check). Definition-held data (literal member lists behind the Def pointer a family shares; convLiteral executed by the driver): convLiteral_ext / c12_def_pure, members_eq_spec / c12_def_after_others / c12_def_twice / c12_def_acc_irrelevant; excluded shape with witnesses inplace_dedup_changes_definition / inplace_dedup_changes_next_document. Over the regenerated tables: c12_writes_private, c12_aliasing_accessors_read_only, c12_accessors_classified, c12_scratch_bag_private, c12_ranges_partial (every loop over a map feeds an order-insensitive sink except ToJSONSchema(registry): registry_range_order_sensitive, c12_ranges_full_false, open known finding registry-document-order-dependent), c12_shape_range_sorted / c12_enum_sort_total / c12_applyBag_range_sorted / applyBag_field_collisions / sortedKeys_order_invariant; legacy_* = rows of earlier trees kept as constants. Options (Model/ConvOpts.lean, convertO executed by the driver for the in-place rewriting histories): c12_opts_ext / c12_opts_pure / c12_opts_entries_kept, c12_opts_deterministic / c12_opts_twice / c12_opts_after_others, c12_opts_hist, c12_opts_full_with_clone; for the code before 8997831 c12_opts_partial + witnesses override_edits_registry_examples / c12_opts_full_false; c12_options_modelled, c12_options_read_only, c12_override_handed_live_node, c12_doc_stores_private (legacy_examples_store_shared), c12_no_mutator_calls. Not listed any more (Proofs/C12.lean, LEGACY: about the Bag-level definitions Store.convert / Store.applyBag / entriesOf, which no driver executes and which hold by unfolding): c12_pure, c12_deterministic, c12_order_invariant, c12_doc_deterministic, c12_hist, today_convert_pollutes_parent, today_applyBag_order_dependent.",
+   note="Proved: the statements above, about the executed definitions. Decided by the run only: that a real conversion's writes are executions of sites of the table (the translator's flow-insensitive provenance analysis is trusted; cross-checked by re-observing every live schema after every step and by the in-place rewriting histories H9); 'parses as before' for the kinds without a content model; the annotated Bag itself (the check callbacks are library code outside to.go: the harness replays annotatedInternals on a private copy and ships the result); structural recursion into member schemas, $defs/ref hoisting, applyMeta and how the value options shape them (16 option settings incl. URI/Override callbacks, ToJSONSchema(registry) steps); ToJSONSchema(registry): purity is claimed and checked, the document is order-dependent (open known finding registry-document-order-dependent); which schemas a conversion visits (whose Describe/Meta callbacks run) is measured on a scout replica. The oracle document is obtained from a replayed isolated twin, which assumes constructors and chaining calls are deterministic. Cfg.convScratch / cloneBagAlways are pinned to the behaviour of /repo HEAD (fixed), not probed. Strings travel in an injective token encoding the model never decodes (Bag keys outside [A-Za-z0-9_.-] would be ordered by their encoding). Trusted: Lean kernel, axioms propext/Classical.choice/Quot.sound, the Go harness, translator and comparer.",
    design="DESIGN.md §3.4, §5 C12")
 
-MODULES = ["Gozod.Proofs.C12", "Gozod.Proofs.C12Def", "Gozod.Proofs.C12Access", "Gozod.Proofs.C12Opts"]
+MODULES = ["Gozod.Proofs.C12", "Gozod.Proofs.C12Def", "Gozod.Proofs.C12Access", "Gozod.Proofs.C12Opts", "Gozod.Proofs.C12Doc"]
 GEN = C.os.path.join(C.LEAN, "Gozod", "Gen", "ConvAccess.lean")
 THEOREMS = [
-    "Gozod.C12.c12_pure", "Gozod.C12.c12_pure_obs", "Gozod.C12.c12_deterministic", "Gozod.C12.c12_twice",
-    "Gozod.C12.c12_order_invariant", "Gozod.C12.c12_doc_deterministic", "Gozod.C12.entriesOf_nodup",
-    "Gozod.C12.c12_hist", "Gozod.C12.today_convert_pollutes_parent", "Gozod.C12.today_applyBag_order_dependent",
+    # about the definitions the driver executes (Model/ConvDoc.lean over the regenerated tables): Proofs/C12Doc.lean
+    "Gozod.C12Doc.sites_private", "Gozod.C12Doc.c12_trace_ext", "Gozod.C12Doc.c12_trace_pure", "Gozod.C12Doc.c12_trace_obs",
+    "Gozod.C12Doc.legacy_trace_impure", "Gozod.C12Doc.c12_parse_obj_as_before", "Gozod.C12Doc.c12_parse_holder_as_before",
+    "Gozod.C12Doc.get_perm", "Gozod.C12Doc.canon_perm", "Gozod.C12Doc.docOf_perm", "Gozod.C12Doc.applyBag_row_present",
+    "Gozod.C12Doc.applyBagRow_sorted", "Gozod.C12Doc.named_functions_present", "Gozod.C12Doc.legacy_docOf_order_dependent",
+    "Gozod.C12Doc.c12d_hist", "Gozod.C12Doc.c12d_doc_as_before", "Gozod.C12Doc.c12d_doc_as_before_any_order",
+    # registry (convertReg / annotateEntry: executed by the driver)
     "Gozod.C12.c12_annotate_idem", "Gozod.C12.annotateEntry_eq", "Gozod.C12.c12_reg_frame", "Gozod.C12.c12_reg_twice",
     "Gozod.C12.c12_reg_after_others", "Gozod.C12.c12_reg_partial", "Gozod.C12.absorbed_after_conversion",
     "Gozod.C12.conv_registers_meta_check", "Gozod.C12.c12_reg_full_false", "Gozod.C12.merging_examples_not_idempotent",
@@ -115,6 +119,31 @@ def drop_unshown(is_, ms):
     return ";".join(a), ";".join(b)
 
 
+def split_k(struct):
+    """'g..m..r..!k=..;g..!k-' -> (structs without the k parts, list of k parts ('' when a step has none))"""
+    rest, ks = [], []
+    for st in struct.split(";"):
+        a, bang, k = st.partition("!")
+        rest.append(a); ks.append(k if bang else "")
+    return ";".join(rest), ks
+
+
+def project_k(iks, mks):
+    """The document-level tie: per conv step the keywords of the real document (impl, always `k=` + every bag-settable keyword
+    of the node, or `k-`) against the keywords ConvDoc.docOf derives from the shipped annotated Bag (model): `k=` compared in
+    full; `k~` (structural kinds: only the fields applyBag assigns are predicted) compared on the fields the model lists;
+    `k-` (wrappers, pipes: the node is another schema's) not compared."""
+    a, b = [], []
+    for ik, mk in zip(iks, mks):
+        if mk == "k-" or ik == "k-" and mk == "":
+            a.append(""); b.append(""); continue
+        if mk.startswith("k~") and ik.startswith("k="):
+            fs = set(x.split("=")[0] for x in mk[2:].split(",") if x)
+            ik = "k~" + ",".join(x for x in ik[2:].split(",") if x.split("=")[0] in fs)
+        a.append(ik); b.append(mk)
+    return "!".join(a), "!".join(b)
+
+
 def rewrite(data):
     ops, impl, model, stats = data
     impl2, model2 = [], []
@@ -126,7 +155,12 @@ def rewrite(data):
             impl2.append(iv + " S:" + is_); model2.append(model[i] + "\t-"); continue
         m, s = model[i].split("\t", 1)
         mv, ms = c08.parts(m)
+        is_, iks = split_k(is_)
+        ms, mks = split_k(ms)
+        ik, mk = project_k(iks, mks) if len(iks) == len(mks) else ("!".join(iks), "!".join(mks))
         is_, ms = drop_unshown(is_, ms)
+        if ik != mk:
+            is_, ms = is_ + " K:" + ik, ms + " K:" + mk
         sv, _ = c08.parts(s)
         mv, sv = mask(mv, steps), mask(sv, steps)
         # ToJSONSchema(registry): the model claims purity, not determinism — `r:` stands for "the document may differ" and is
@@ -157,28 +191,46 @@ def run(res):
     # ONE harness process regenerates Gen/ConvAccess.lean (go/ast provenance analysis of REPO's jsonschema/to.go: accessor
     # calls, write sites with the origin of the memory written, map ranges with their sinks, convertEnum's sort; accessors
     # classified alias/copy behaviourally) and then runs the histories; the proofs over the regenerated tables are built
-    # afterwards, under the same lock (table and proof run belong to the same tree). The driver does not import the tables.
+    # afterwards, under the same lock (table and proof run belong to the same tree). The driver imports the tables too.
     import time
     t0 = time.time()
     timing = {}
     with C.Lock("c12-gen"):
         timing["wait_own_lock_s"] = round(time.time() - t0, 1)
+        tb = time.time()
+        okh, outh = C.build_harness("C12")      # slow only after /repo moved
+        timing["harness_go_build_incl_go_lock_wait_s"] = round(time.time() - tb, 1)
+        if not okh:
+            C.tie_broken(res, "harness C12 does not build against the tree", outh[-3000:])
+            return res.finish()
+        # the translator FIRST: the driver imports the regenerated tables (its prediction goes through ConvDoc.docOf over the
+        # regenerated applyBag row and ConvDoc.runTrace over the regenerated write sites)
+        env = C.goenv(); env["C12_GEN"] = GEN
+        rc, outg = C.run([C.harness_bin("C12")], env=env, timeout=600)
+        if rc != 0:
+            C.tie_broken(res, "translator jsonschema/to.go -> Gen/ConvAccess.lean", outg[-3000:])
+            return res.finish()
         t1 = time.time()
         okd, outd = C.lake_build(["driver_c12"])
         timing["driver_build_incl_lake_lock_wait_s"] = round(time.time() - t1, 1)
         if not okd:
-            C.tie_broken(res, "driver_c12 does not build", outd[-3000:])
+            C.tie_broken(res, "driver_c12 does not build over the regenerated tables (Gen/ConvAccess.lean)", outd[-3000:])
             return res.finish()
-        C.os.environ["C12_GEN_ALSO"] = GEN
-        tb = time.time()
-        C.build_harness("C12")      # timed separately (correspond builds again: a no-op then); slow only after /repo moved
-        timing["harness_go_build_incl_go_lock_wait_s"] = round(time.time() - tb, 1)
+        C.os.environ.pop("C12_GEN_ALSO", None)
         t2 = time.time()
         data, err = C.correspond(res, "C12")
         timing["harness_relink_run_and_driver_s"] = round(time.time() - t2, 1)
         t3 = time.time()
         ok, detail = C.prove(res, MODULES, THEOREMS)
         timing["proofs_incl_lake_lock_wait_s"] = round(time.time() - t3, 1)
+    changed = C.fingerprint(res, "C12")
+    for k, lean_def, kind, det in changed:
+        if kind == "missing":
+            C.tie_broken(res, "fingerprint " + k, "the function transcribed as %s is gone from jsonschema/to.go: %s" % (lean_def, det))
+    if changed:
+        # the transcribed functions are reached by EVERY conv step of the run (docOf against the real document's keywords),
+        # so the correspondence below is the re-validation; the changed functions are recorded in the evidence
+        res.assumptions.append("source fingerprint: %d transcribed function(s) of jsonschema/to.go edited since recorded (%s); re-validated by this run's document tie" % (len(changed), ", ".join(c[0] for c in changed)))
     if data is not None and isinstance(data[3], dict):
         timing["harness_run_s"] = data[3].get("harness_s")
     res.coverage["timing"] = timing
@@ -197,9 +249,10 @@ def run(res):
         "then every schema converted once more; H5 = private metadata registries; H6 = every catalogue check value (gozod.Describe/gozod.Meta with GlobalMeta examples of every JSON kind, "
         "user-defined checks, every check the public methods build: storex/checks.go) through every method taking a core.ZodCheck, result converted 3x, parent, wrapper 3x, sibling, second check, all twice more; "
         "H7 = the catalogue attached with Internals().AddCheck on every base, converted 3x, child 2x, sibling, all again; H8 = ToJSONSchema(REGISTRY over the whole family) as a history step between conversions of its schemas (9 registry x option variants); H9 = in-place rewriting of documents (an Override overwriting every list / pointee of every node it is handed; the caller doing the same to the returned document) on every base with a Meta check carrying examples and on 6 bases whose registry entry has examples, every conv step with the measurement of which registry entries' example lists the document holds. 14 option sets in the random pool (values, private registries, URI + Override callbacks, unknown strings, combinations). Bases = every schema type (storex.Bases) + definition-data bases (storex.DefBases: literal member lists any-typed/typed with repeats, one slice member, nested slices, maps, mixed types, arrays; enums over string/int/float/bool/int8/any members with repeats; objects/unions/xors/tuples/arrays/intersections/maps/records/lazies holding the same member instance several times or several composite members). Snapshot per live schema: exported internals + what every slice/map accessor hands out + the definition's own slices/maps; parse fingerprint over the fixed probes + member-derived probes (every member, element, proper prefix) + probes derived from the schema's own boundary values read off an isolated twin (document keywords at every depth and the annotated Bag: numbers at bound-1/bound/bound+1 as int/int64/float64 and +-0.5, strings/lists/maps of length bound-1/bound/bound+1, objects with every declared key / each required key absent / an undeclared key; distribution in input_distribution: probe:*, bound:*:<straddled|all-accepted|all-rejected>, probes-from-bounds:*). A document that differs from the twin's is re-tried on 24 fresh twins: disagreement among isolated twins = verdict n (nondeterministic). Oracle per conversion: the document of an isolated replayed twin; registry entries "
-        "before/after each conversion against the model (convertReg). distinct = distinct op lines.")
+        "before/after each conversion against the model (convertReg). Per conversion additionally the document-level tie: the annotated Bag of the converted schema (annotatedInternals replayed on a private copy; shipped in a non-sorted enumeration order) and internals.Type go to the Lean driver, ConvDoc.docOf derives the bag-settable keywords through the regenerated applyBag row, compared with the keywords of the real document's node (histogram class:conv-with-document-keywords). distinct = distinct op lines.")
     res.assumptions += [
         "constructors and chaining calls are deterministic (the isolated twin is the same derivation replayed)",
-        "the annotated Bag determines the constraint keywords; recursion into member schemas and $defs hoisting are validated by the runs only",
+        "the annotated Bag determines the bag-settable keywords of the schema's own node (checked per conversion: ConvDoc.docOf against the real document); recursion into member schemas and $defs hoisting are validated by the runs only",
+        "a real conversion's writes are executions of write sites of the regenerated table (translator's provenance analysis; cross-checked by re-observing every live schema after every step)",
     ]
     return res.finish()
